@@ -496,18 +496,46 @@ def tested_vector(sv, node):
             cand = []
             for a in defs:
                 cand.append((_pos(a), a))
+            if b is not None and b.kind == "let" and b.init is not None and not b.proj and _pos(b.node) < tpos:
+                cand.append((_pos(b.node), {"k": "LetInit", "r": b.init, "_p": b.node.get("_p"), "sp": b.node.get("sp"), "_fn": b.node.get("_fn")}))
             cand.sort(key=lambda z: z[0])
             # all assignments between the last unconditional one and the test (BiCG: two conditional ones)
             out = []
+            arms = []
             for pos, a in reversed(cand):
-                t = ctx.term(a["r"])
-                out.append((a, t))
-                conds = [x for x in ancestors(a) if x.get("k") == "If" and any(y is sv.main or y is sv.fn["body"] for y in ancestors(x))]
                 inner_if = [x for x in ancestors(a) if x.get("k") == "If" and not any(z is x for z in ancestors(node))]
                 if not inner_if:
+                    # an unconditional definition: dead if the conditional ones after it cover every case (their conditions
+                    # are exactly the alternatives of a disjunction known at the test, e.g. itol == 1 || itol == 2)
+                    if arms and _covered(ctx, arms, tests[0] if tests else node):
+                        break
+                    out.append((a, ctx.term(a["r"])))
                     break
-            return R, out, f[1]
+                out.append((a, ctx.term(a["r"])))
+                br = inner_if[0]
+                pol = any(z is br.get("then") for z in [a] + list(ancestors(a)))
+                arms.append(frozenset(cond_atoms(ctx, br["cond"], pol)) if len(inner_if) == 1 else None)
+            flat = []
+            for a, t in out:
+                stack = [t]
+                while stack:
+                    y = stack.pop()
+                    if y[0] == "ite" and y[3] != ("unit",):
+                        stack.extend([y[3], y[2]])      # `x = if c { A } else { B }`: both arms are definitions
+                    else:
+                        flat.append((a, y))
+            return R, flat, f[1]
     return None, [], None
+
+
+def _covered(ctx, arms, at):
+    if any(a is None for a in arms):
+        return False
+    want = set(arms)
+    for f in facts(ctx, at):
+        if f[0] == "or" and {frozenset(alt) for alt in f[1]} == want:
+            return True
+    return False
 
 
 def _pos(n):
@@ -571,6 +599,11 @@ def rule_normaliser(rep, sv, name):
             if nd is not None:
                 divs.add(nd[1])
     rule = "the divisor of the residual normalisation is defined as the norm of the right-hand side b (or of its identity-preconditioned copy), apart from the zero-norm repair `= 1.0`"
+    if len(divs) == 1 and repaired_norm(list(divs)[0]) is not None:
+        N = repaired_norm(list(divs)[0])
+        good = N[0] == "call" and str(N[1]).endswith("::norm_2") and N[2] == B_
+        rep.add("normaliser/%s" % name, rule, good, fn["body"], "divisor is `if N == 0 { c } else { N }` with N = %s" % show(N, ctx), where="%s:%d" % (fn["file"], fn["span"][0]))
+        return
     if len(divs) != 1 or list(divs)[0][0] != "var":
         rep.bad("normaliser/%s" % name, rule, fn["body"], "divisors: %s" % [show(d, ctx) for d in divs], where="%s:%d" % (fn["file"], fn["span"][0]))
         return
@@ -602,6 +635,19 @@ def rule_normaliser(rep, sv, name):
             ok = False
             det.append("unrecognised definition %s" % show(t, ctx))
     rep.add("normaliser/%s" % name, rule, ok and n_norm >= 1, defs[0][0] if defs else fn["body"], "; ".join(det))
+
+
+def repaired_norm(t):
+    """`if N == 0.0 { c } else { N }` (c a nonzero constant; either spelling): the zero-norm repair as an expression -> N"""
+    if t[0] == "ite" and t[1][0] == "op" and t[1][1] in ("==", "!="):
+        a, b = t[1][2], t[1][3]
+        N = b if a == num(0) else (a if b == num(0) else None)
+        if N is None:
+            return None
+        zero_arm, other = (t[2], t[3]) if t[1][1] == "==" else (t[3], t[2])
+        if other == N and zero_arm[0] == "num" and zero_arm[1] != 0:
+            return N
+    return None
 
 
 def norm_def(t):
